@@ -253,15 +253,19 @@ void PCA(matrix *mx, int scaling, size_t npc, PCAMODEL* model, ssignal *s)
 
       DelDVector(&colvar);
 
-      /* Without centering (scaling -1) the column of largest variance can be
-       * a null (or noise level) column while E still holds constant non null
-       * columns: start then from the column of largest norm.
+      /* Without centering (scaling -1) the variance of a column says nothing
+       * about its share of E'E: the column of largest variance can be null,
+       * noise, or exactly orthogonal to the leading axis (axis aligned data),
+       * in which case the iteration would stay on a minor axis. Start then
+       * from the column of largest norm, as for centred data (where norm and
+       * variance pick the same column).
        */
       mod_t = 0.f;
       for(i = 0; i < E->row; i++)
         mod_t += square(E->data[i][j]);
 
-      if(mod_t <= ss*DBL_EPSILON*DBL_EPSILON){
+      if(scaling == -1 || mod_t <= ss*DBL_EPSILON*DBL_EPSILON){
+        mod_t = 0.f;
         size_t k;
         for(k = 0; k < E->col; k++){
           double col_ss = 0.f;
